@@ -587,3 +587,5 @@ def run(ctx, led):
         if hasattr(_C04, _name):
             run_rule(led, _rid, "the optimisation procedures `solve minimize/maximize` runs on: C04-%s (shared)" % _name.upper(), getattr(_C04, _name), ctx)
     run_rule(led, "F16", "SIBLINGS: alias merging uses the same argument order for Booleans and integers", f16, ctx)
+    from . import C07 as _C07d
+    run_rule(led, "F17", "an equality decision is read back as written (no-learning resolver under `--conflict-resolver no-learning`; shared with C07-J5)", _C07d.j5, ctx)
